@@ -1,6 +1,7 @@
 package dials
 
 import (
+	"reflect"
 	"context"
 	"strconv"
 	"sync"
@@ -226,4 +227,43 @@ func HarnessC05AfterDone() {
 	zzverif.Assert(zzverif.And(got.A == wantA, got.B == wantB), "C05 the view differs from a fresh stack of the latest reported values (after one watcher finished)")
 	zzverif.Assert(ser.s == ser0.s+1, "C05 the serial does not count the installed versions")
 	zzverif.Reached("c05-done-end")
+}
+
+// HarnessC05SameObject: a watching source keeps ONE value object, changes it in place and reports
+// it again; each report re-stacks from the contents the object has at that time.
+func HarnessC05SameObject() {
+	verifyLog = nil
+	def := hcfg{A: zzverif.Int64("defA"), B: zzverif.Int64("defB")}
+	src := &hwsrc{hsrc{name: "s0", init: hval{setA: true, a: zzverif.Int64("a_init")}}}
+	ctx, cancel := context.WithCancel(context.Background())
+	defer cancel()
+	defc := def
+	d, err := Config(ctx, &defc, src)
+	if err != nil {
+		zzverif.Fail("C04 Config failed on a valid initial stack")
+		return
+	}
+	_, ser0 := d.ViewVersion()
+	a1, a2, b2 := zzverif.Int64("a1"), zzverif.Int64("a2"), zzverif.Int64("b2")
+	held := mkValue(src.t, hval{setA: true, a: a1})
+	e1 := src.wa.BlockingReportNewValue(ctx, held)
+	zzverif.Assert(e1 == nil, "C07 a valid blocking report failed")
+	v1, ser1 := d.ViewVersion()
+	zzverif.Assert(zzverif.And(v1.A == a1, v1.B == def.B), "C05 the view differs from a fresh stack of the latest reported values")
+	zzverif.Assert(ser1.s == ser0.s+1, "C05 the serial does not count the installed versions")
+	if zzverif.Choose("how", 2) == 0 {
+		held.FieldByName("A").Elem().SetInt(a2)
+	} else {
+		x := a2
+		held.FieldByName("A").Set(reflect.ValueOf(&x))
+	}
+	y := b2
+	held.FieldByName("B").Set(reflect.ValueOf(&y))
+	e2 := src.wa.BlockingReportNewValue(ctx, held)
+	zzverif.Assert(e2 == nil, "C07 a valid blocking report failed")
+	v2, ser2 := d.ViewVersion()
+	zzverif.Assert(zzverif.And(v2.A == a2, v2.B == b2), "C05 the view differs from a fresh stack of the latest reported value (the source reported the same object again after changing it)")
+	zzverif.Assert(ser2.s == ser1.s+1, "C05 the serial does not count the installed versions")
+	zzverif.Assert(zzverif.And(v1.A == a1, v1.B == def.B), "C02 a later report changed a version handed out earlier")
+	zzverif.Reached("c05-sameobject-end")
 }
